@@ -130,6 +130,22 @@ func c16Check(env *core.Env, cc core.Case) core.Verdict {
 		if c.Cmd == "format-check-all" {
 			args = []string{"regex", "format", "--check", "--all"}
 		}
+		// the same on a build with the race detector: work that is spread over goroutines must not share a counter or
+		// a flag without synchronisation (such a failure shows in a few runs out of a hundred, the detector sees it at once)
+		if rb, err := env.Variant(sut.BuildOpts{Tags: "verif", Race: true}); err == nil {
+			for k := 0; k < 3; k++ {
+				r := sut.Run(sut.Cmd{Bin: rb, Args: append([]string{"-d", root}, args...), Dir: root, Timeout: 120 * time.Second})
+				if r.Class() == sut.ClassFault {
+					return core.Viol("data-race:"+c.Cmd, "%v on the build with the race detector: %s", args, describe(r))
+				}
+				if r.Class() != sut.ClassTimeout && r.Exit == 0 {
+					return core.Viol("exit0:"+c.Fault+":"+c.Cmd, "%v (race-detector build): exit status 0 although the last file of the walk is faulty", args)
+				}
+				v.Counts["race_detector_runs"]++
+			}
+		} else {
+			v.Counts["race_build_unavailable"]++
+		}
 		for k := 0; k < 25; k++ {
 			r := cli(env, root, nil, args...)
 			if r.Class() == sut.ClassTimeout {
